@@ -126,7 +126,7 @@ def build(variant, programs=('drv',), extra_defs=()):
                     extra = []
                 else:
                     srcs = [os.path.join(HARNESS, prog + '.c')]
-                    extra = ['-Wl,--wrap=exit'] if prog in ('drv',) else []
+                    extra = ['-Wl,--wrap=exit'] if prog in ('drv', 'fuzz_target') else []
                     if prog == 'fuzz_target':
                         hflags = cflags
                 tmp = exe + '.tmp.%d' % os.getpid()
